@@ -1,20 +1,7 @@
-/- C14: the table-wide checks of the Bitcoin family (closed computations checked by the kernel). -/
-import SimplicityModel.Gen.JetsBitcoin
-import SimplicityModel.KernelRfl
+/- C14: the Bitcoin family passes every table-wide check (parts A and B). -/
+import SimplicityModel.C14.BitcoinA
+import SimplicityModel.C14.BitcoinB
 namespace C14.Bitcoin
 open JetTable JetTable.Family
-set_option maxRecDepth 20000
-
-theorem keys_tie : Gen.Bitcoin.family.rows.map (fun r => (r.name, r.src, r.tgt)) =
-    Gen.Bitcoin.family.keys.map (fun k => (strOfKey k.1, strOfKey k.2.1, strOfKey k.2.2)) := by kernel_rfl
-theorem enc_tie : Gen.Bitcoin.family.codes = Gen.Bitcoin.family.enc.map (fun e => Spk.bitsBE e.1 e.2) := by decide +kernel
-theorem decode : checkDecodeFrom Gen.Bitcoin.family.trie 0 Gen.Bitcoin.family.codes = true := by decide +kernel
-theorem leaves : checkLeaves Gen.Bitcoin.family.trie Gen.Bitcoin.family.codes.length = true := by decide +kernel
-theorem sorted : sortedBytes Gen.Bitcoin.family.nameBytes = true := by decide +kernel
-theorem ascii : allB isAscii Gen.Bitcoin.family.nameBytes = true := by decide +kernel
-theorem arms : checkArmsFrom 0 Gen.Bitcoin.family.parseArms Gen.Bitcoin.family.nameKeys = true := by decide +kernel
-theorem types : allB (fun k => (ctyOfName (bytesOfKey k.2.1)).isSome && (ctyOfName (bytesOfKey k.2.2)).isSome) Gen.Bitcoin.family.keys = true := by decide +kernel
-
 theorem checked : Gen.Bitcoin.family.Checked := ⟨keys_tie, enc_tie, decode, leaves, sorted, ascii, arms, types⟩
-theorem count : Gen.Bitcoin.family.rows.length = 428 := by decide +kernel
 end C14.Bitcoin
